@@ -120,30 +120,15 @@ class InducingPointKernel(Kernel):
         return self.base_kernel.num_outputs_per_input(x1, x2)
 
     def __deepcopy__(self, memo):
-        replace_inv_root = False
-        replace_kernel_mat = False
-
-        if hasattr(self, "_cached_kernel_inv_root"):
-            replace_inv_root = True
-            kernel_inv_root = self._cached_kernel_inv_root
-        if hasattr(self, "_cached_kernel_mat"):
-            replace_kernel_mat = True
-            kernel_mat = self._cached_kernel_mat
-
-        cp = self.__class__(
-            base_kernel=copy.deepcopy(self.base_kernel, memo),
-            inducing_points=copy.deepcopy(self.inducing_points, memo),
-            likelihood=copy.deepcopy(self.likelihood, memo),
-            active_dims=self.active_dims,
-        )
-        cp.train(self.training)
-
-        if replace_inv_root:
-            cp._cached_kernel_inv_root = kernel_inv_root
-
-        if replace_kernel_mat:
-            cp._cached_kernel_mat = kernel_mat
-
+        # The cached kernel matrix / inverse root are (non-leaf) tensors that cannot be deep-copied: the copy shares them.
+        # Everything else (parameters, priors, constraints, flags) is copied the default way.
+        cp = self.__class__.__new__(self.__class__)
+        memo[id(self)] = cp
+        for name, value in self.__dict__.items():
+            if name in ("_cached_kernel_inv_root", "_cached_kernel_mat"):
+                cp.__dict__[name] = value
+            else:
+                cp.__dict__[name] = copy.deepcopy(value, memo)
         return cp
 
     def prediction_strategy(self, train_inputs, train_prior_dist, train_labels, likelihood):
